@@ -109,6 +109,10 @@ class BetaProxy:
 
     def beta_qcd(self, k, nf):
         if k[1] == 0 and 0 <= k[0] - 2 < len(self._bet):
+            # argument check: the symbolic coefficients stand for the flavour number the harness passes in as the symbol `nf`;
+            # a caller asking for another one (nf + 1, ...) must not be served the same symbols
+            if isinstance(nf, SR) and not (nf - SR.var("nf")).v.canon().n.is_zero():
+                raise EngineError("beta_qcd(%r) asked for a flavour number other than the kernel's nf: %r" % (k, nf))
             return self._bet[k[0] - 2]
         return self._real.beta_qcd(k, nf)
 
